@@ -9,6 +9,7 @@ interpreted from HIR on a model store (chunk size 4, 10 slots, 2 terminals) for 
             the 11th answer is OutOfMemory (and stays so);
   foreign   a thread whose local state belongs to no / another store does the same through the shared state only;
   two       two worker threads alternate (A, B, A, A, B, A, B, B, ...): all ids distinct, 10 successes, then OutOfMemory;
+  reuse     a full store, `free_slot` of the nodes 5, 8 and 3, three more allocations: exactly these ids, then OutOfMemory;
   sessions  a thread enters the store (`prepare_local_state`), allocates 2 / 4 / 5 nodes, leaves (the guard's drop returns the rest
             of its chunk and its own list to the shared state), enters again and allocates 12: over both sessions every id is handed
             out exactly once, the shared node count is exact, then OutOfMemory;
@@ -88,6 +89,10 @@ class SlotDomain(tables.DDDomain):
         if n == BASE + "addr" or did == BASE + "addr":
             (p,) = [it.ev(a, env) for a in args_e]
             return p.addr if isinstance(p, Obj) and hasattr(p, "addr") else 0
+        if did.endswith("::return_slot") and "::free_slot::" in did and did in self.F.hir:
+            return it.call_fn(did, [it.ev(a, env) for a in args_e])
+        if n.endswith("ManuallyDrop::<T>::take") or n.endswith("ManuallyDrop::take"):
+            return [it.ev(a, env) for a in args_e][0]
         if did.endswith("::drop::return_preallocated") and did in self.F.hir:
             return it.call_fn(did, [it.ev(a, env) for a in args_e])
         if n.endswith("IntoIterator::into_iter"):
@@ -135,6 +140,9 @@ class SlotDomain(tables.DDDomain):
                 fid = next((f for f in self.F.hir if f.startswith(BASE) and f.endswith("::" + nm) and "Store<" in self.F.nice(f)), None)
                 if fid:
                     return it.call_fn(fid, [recv] + it.args(e, env), {"TERMINALS": TERMS})
+        if isinstance(recv, Enum) and recv.path in (SOME, NONE) and nm == "unwrap_or":
+            (d_,) = it.args(e, env)
+            return recv.args[0] if recv.path == SOME else d_
         if isinstance(recv, list):
             if nm == "pop":
                 return Enum(SOME, [recv.pop()]) if recv else Enum(NONE)
@@ -260,6 +268,30 @@ def run(ctx, F, rule=RULE):
         if owner:
             loc.initialized.v = 8      # a multiple of the chunk size: the thread's chunk is used up
         sequence("all slots allocated, shared free list 7 -> 9, one %s thread" % ("worker" if owner else "foreign"), store, slots, [loc] * 4, 2, {7, 9})
+    # free and reuse: a full store, three nodes freed through Store::free_slot, three allocations get exactly these slots
+    fs = next((f for f in F.hir if f.startswith(BASE) and f.endswith("::free_slot") and "Store<" in F.nice(f)), None)
+    if ctx.anchor(rule, "Store::free_slot", fs is not None):
+        for owner in (True, False):
+            n += 1
+            store, shared, slots = new_store(F)
+            loc = new_local(owner)
+            label = "full store, free_slot of 5, 8, 3 by a %s thread, three allocations" % ("worker" if owner else "foreign")
+            try:
+                ids = [alloc(store, loc, k)[0] for k in range(11)]
+                if sorted(i for i in ids if i is not None) != sorted(full) or ids[-1] is not None:
+                    raise Panic("filling the store answers %r" % (ids,))
+                for i in (5, 8, 3):
+                    outs = list(enumerate_runs(lambda o: Interp(F, SlotDomain(F, store, loc), o, max_depth=8),
+                                               lambda it: it.call_fn(fs, [store, slots[i - TERMS], i], {"TERMINALS": TERMS})))
+                    if len(outs) != 1 or outs[0][1][0] != "ok":
+                        raise Unrecognised("free_slot yields %r" % (outs[0][1] if outs else None,))
+                got = [alloc(store, loc, 20 + k)[0] for k in range(4)]
+                if sorted(g for g in got[:3] if g is not None) != [3, 5, 8] or got[3] is not None:
+                    fails.append("%s: answers %r, expected the ids 3, 5, 8 (each once) and then OutOfMemory" % (label, got))
+            except Panic as p_:
+                fails.append("%s: %s" % (label, p_.msg))
+            except Unrecognised as u:
+                fails.append("%s: not interpretable: %s" % (label, u))
     # sessions: a thread enters the store (prepare_local_state), allocates, leaves (guard drop: the rest of its chunk and its own
     # free list go back to the shared state), enters again: over both sessions every slot is handed out once
     prep = next((f for f in F.hir if f.startswith(BASE) and f.endswith("::prepare_local_state") and "Store<" in F.nice(f)), None)
